@@ -97,6 +97,20 @@ def _realise(ax, rule, v, dim):
     raise core.MachineryError(f"unknown rule {rule}")
 
 
+class AxesGroupedUnderWrongDimension(Exception):
+  """create_groups put an axis into a group whose key is not that axis's dimension (C17 speaks about
+  groups of EQUAL-DIMENSION axes; the dimension is the axis's 'dim' entry or eigvecs.shape[0])."""
+
+
+def _check_groups(sk, group_dict):
+  for key, names in group_dict.items():
+    for nm in names:
+      ax = _leaf(sk, nm)
+      true_dim = int(ax["dim"]) if "dim" in ax else int(ax["eigvecs"].shape[0])
+      if int(key) != true_dim:
+        raise AxesGroupedUnderWrongDimension(f"axis {nm} of dimension {true_dim} grouped under {key}")
+
+
 def _synthetic(R, job):
   """-> (states, layer_names, num_axes, group_dict)"""
   import copy
@@ -104,6 +118,7 @@ def _synthetic(R, job):
   sk = _skeleton(job)
   layer_names, num_axes = R.layers_and_axes(sk)
   group_dict = R.create_groups(sk, layer_names)
+  _check_groups(sk, group_dict)
   # name -> wanted score
   want = {}
   sc = job["scores"]
